@@ -82,3 +82,8 @@ def fill(claim, na):
       'Partial evaluation of all line definitions under "this declaration is affirmative" (3-valued conditions, inter-line constant propagation): the ~78 frozen gate declarations per year must still have a reader that refuses on every path after reading them (R9.1); every other reader of a gate must refuse by itself, through the lines it must read / a required line of its form, or because every demander aborts - the contradiction rule "one reader refuses, a sibling proceeds" (R9.2); ~22 frozen limit gates per year keep a not-implemented path guarded by amount > limit (R9.3); the signal is real (K1, K2, K3).',
       'Trusted: sa/gates.py + sa/lineabs.py; the frozen table sa/data/gates.json (inferred, then confirmed by reading; composite declarations listed under not_gates with a reason and not judged). Not decided: that a gate is reached for given data; gates on derived amounts outside the frozen limit list.',
       'partial evaluation / abstract interpretation of line definitions under assumptions + sibling contradiction rule', 'DESIGN.md §3 C09')
+
+    c('C08',
+      'Exhaustive comparison of (year, amount, use site, filing status) triples: every line definition is partially evaluated under each of the five statuses and the constants it uses are extracted with role and the inputs/lines they are combined with; 174 frozen use sites of 53 statutory amounts x 3 years x statuses (about 510 triples) must equal an independent table of published values; where the IRS template prints dollar amounts on the mapped box, the values used must be among them.',
+      'Trusted: sa/amounts.py + sa/lineabs.py; the published values typed into sa/tools/make_statutory_table.py (Rev. Proc. 2020-45/2021-45/2022-38, form instructions, NC D-401) and frozen in sa/data/statutory_amounts.json. Amounts not in the table are not covered; tiered tables are compared as sets per status.',
+      'partial evaluation per filing status + semantic constant extraction + comparison with an independent oracle table', 'DESIGN.md §3 C08')
